@@ -665,6 +665,34 @@ func runC07(r *engine.Run) {
 					c.Fail("registry/framing-differs-from-model", fmt.Sprintf("after %v: stream %x (uplink=%v): %s", x.PathNames(path), stream, uplink, msg), nil)
 				}
 				c.Outcome(fmt.Sprintf("registry/framed/size=%d", sz))
+				// the encoder side: a proprietary command carrying the size registered for
+				// its direction encodes to CID|payload (MACCommand.MarshalBinary has no
+				// direction; it must not apply the other direction's size), alone and
+				// inside the FOpts of a frame of that direction
+				if sz > 0 && sz <= 14 {
+					pay := bytes.Repeat([]byte{0x5A}, sz)
+					mc := &lorawan.MACCommand{CID: lorawan.CID(cid), Payload: &lorawan.ProprietaryMACCommandPayload{Bytes: append([]byte(nil), pay...)}}
+					enc, err := mc.MarshalBinary()
+					if err != nil || !bytes.Equal(enc, append([]byte{cid}, pay...)) {
+						c.Fail("registry/proprietary-command-encode", fmt.Sprintf("after %v: proprietary command %02x with the %d bytes registered for uplink=%v encodes to %x (err %v)", x.PathNames(path), cid, sz, uplink, enc, err), nil)
+						continue
+					}
+					fr := lorawan.PHYPayload{MHDR: lorawan.MHDR{MType: mt}, MACPayload: &lorawan.MACPayload{FHDR: lorawan.FHDR{FOpts: []lorawan.Payload{mc}}}}
+					wire, err := fr.MarshalBinary()
+					if err != nil {
+						c.Fail("registry/proprietary-command-encode", fmt.Sprintf("after %v: frame with proprietary command %02x (%d bytes, uplink=%v) refused: %v", x.PathNames(path), cid, sz, uplink, err), nil)
+						continue
+					}
+					var back lorawan.PHYPayload
+					if err := back.UnmarshalBinary(wire); err != nil || back.DecodeFOptsToMACCommands() != nil {
+						c.Fail("registry/proprietary-command-round-trip", fmt.Sprintf("after %v: frame %x with proprietary command %02x does not decode", x.PathNames(path), wire, cid), nil)
+						continue
+					}
+					if msg := sameCmds(uplink, back.MACPayload.(*lorawan.MACPayload).FHDR.FOpts, []spec.Cmd{{CID: cid, Payload: pay}}); msg != "" {
+						c.Fail("registry/proprietary-command-round-trip", fmt.Sprintf("after %v: frame %x (uplink=%v): %s", x.PathNames(path), wire, uplink, msg), nil)
+					}
+					c.Outcome("registry/proprietary-command-encoded")
+				}
 			}
 		}
 	}
